@@ -282,7 +282,7 @@ class MatchesPredicate(Matcher):
 
     def match(self, x):
         if not self.predicate(x):
-            return Mismatch(self.message % x)
+            return Mismatch(self.message % (x,))
 
 
 def MatchesPredicateWithParams(predicate, message, name=None):
